@@ -26,7 +26,8 @@ describe(
     "teardown is control-dependent only on being configured, follows the results summary and precedes mark_complete; node "
     "hooks bracket _run_jobs; none sits in a loop; each passes env = os.environ.copy() + documented keys; and every "
     "attribute read on the JobConfiguration receiver in those functions resolves to a member (an unresolved read is an "
-    "AttributeError at run time on exactly the paths where a hook is configured).",
+    "AttributeError at run time on exactly the paths where a hook is configured)."
+    " The values of the documented variables are the submission's output directory and the name of the group of this batch's jobs.",
     [
         "run_command / check_run_command execute their argument once per call (retry loop is C18.5)",
         "JobConfiguration subclasses add members only through class bodies and self.x stores",
@@ -348,6 +349,20 @@ def c16_4(ctx, r):
                             s.loc,
                             f"documented variable {key} is not set on every path before the {fld} hook runs",
                         )
+                        for cn in stores:
+                            v = cn.ast.value
+                            if key == "JADE_RUNTIME_OUTPUT":
+                                okv = render(ctx, fn, v) in (f"str(<{fn.cls.name}._output>)", f"<{fn.cls.name}._output>")
+                                what = "the submission's output directory"
+                            else:
+                                recv = v.value if isinstance(v, ast.Attribute) and v.attr == "name" else None
+                                if isinstance(recv, ast.Name):
+                                    recv = ctx.guards(fn).expand(recv, cn)
+                                site = ctx.cg.site_of(fn, recv) if isinstance(recv, ast.Call) else None
+                                okv = site is not None and site.calls_short(ctx.ix, "JobConfiguration.get_default_submission_group") and render(ctx, fn, recv.func.value) == f"<{fn.cls.name}._config>"
+                                what = "the name of the group of this batch's jobs (get_default_submission_group() of the batch config, which lists every group)"
+                            r.check(okv, f"{key} = {what.split(' (')[0]}", key_of(fn, f"env[{key}] value"), fn.loc(cn.ast),
+                                    f"`{ctx.src(cn.ast)}`: {key} is not {what}", "with the documented environment variables")
 
 
 @rule(P, "C16.5", "T12", "every attribute read on the JobConfiguration receiver in the hook functions resolves", min_obligations=15)
